@@ -252,7 +252,10 @@ def gen_arg(rng, pname, cname, L, method):
         return rng.choice([['list', [['int', rng.choice([0, 1, 255, 256, -1])] for _ in range(rng.randint(0, 4))]], ['raising-iter', [1]], ['str', '123'],
                            ['array', rng.choice(['uint8', 'int8', 'float32']), [1, 2]], ['bytes', 'ff00'], ['none']])
     if pname == 'dtype':
-        return rng.choice([['str', rng.choice(['uint8', 'int3', 'float16', 'hex4', '>H', 'bool', 'uint0', 'bytes2', 'ue', 'nonsense', '', 'float17', 'bits3', 'uint', '<zz', 'e2m1mxfp'])],
+        names = ['uint8', 'int3', 'float16', 'hex4', '>H', 'bool', 'uint0', 'bytes2', 'ue', 'nonsense', '', 'float17', 'bits3', 'uint', '<zz', 'e2m1mxfp']
+        if method == 'astype':
+            names.remove('bytes2')      # converting numbers to a bytes dtype hands each int to bytes(): an allocation of that many bytes, not a documented use
+        return rng.choice([['str', rng.choice(names)],
                            ['dtype', ['uint', 8]], ['dtype', ['ue']]])
     if pname == 'kwargs':
         return ['none']
